@@ -93,7 +93,7 @@ def static_coq_files():
 	return files
 
 
-def coq_make(timeout=1500):
+def coq_make(timeout=1500, keep_going=True):
 	"""Builds every model/proof library file (not Props, which the checks compile themselves to capture the output)."""
 	with coq_lock():
 		files = static_coq_files()
@@ -102,7 +102,7 @@ def coq_make(timeout=1500):
 			status, out = run(['coq_makefile', '-f', '_CoqProject.build', '-o', 'Makefile'], 120, cwd=COQ)
 			if status != 0:
 				return False, out
-		status, out = run(['make', f'-j{NCPU}'], timeout, cwd=COQ)
+		status, out = run(['make', f'-j{NCPU}'] + (['-k'] if keep_going else []), timeout, cwd=COQ)
 		return status == 0, out
 
 
@@ -243,10 +243,12 @@ def shape_of(node):
 
 class Shapes:
 	"""Loads anchor functions of the working tree and compares them with the pinned skeletons (harness/shapes.json)."""
-	PINNED = VERIF / 'harness' / 'shapes.json'
+	PINNED_DIR = VERIF / 'harness' / 'shapes'
 
 	def __init__(self):
-		self.pinned = json.loads(self.PINNED.read_text(encoding='utf8')) if self.PINNED.exists() else {}
+		self.pinned = {}
+		for path in sorted(self.PINNED_DIR.glob('*.json')):
+			self.pinned.update(json.loads(path.read_text(encoding='utf8')))
 		self.report = {}
 		self._trees = {}
 
@@ -278,16 +280,16 @@ class Shapes:
 		self.report[key] = 'recognised'
 		return atoms
 
-	def pin(self, anchors):
-		"""(Maintenance, never at check time) pins the skeletons and atoms of the given anchors from the current tree."""
-		for relpath, qualname in anchors:
-			node = find_def(self.tree(relpath), qualname)
-			skeleton, atoms = shape_of(node)
-			self.pinned[f'{relpath}::{qualname}'] = {
-				'skeleton': hashlib.sha256(skeleton.encode('utf8')).hexdigest()[:16],
-				'atoms': [[kind, value if not isinstance(value, bytes) else value.hex()] for kind, value in atoms]
-			}
-		self.PINNED.write_text(json.dumps(self.pinned, indent=1, sort_keys=True) + '\n', encoding='utf8')
+	def pin_entry(self, relpath, qualname):
+		"""(Maintenance, never at check time) skeleton and atoms of an anchor in the current tree."""
+		node = find_def(self.tree(relpath), qualname)
+		if node is None:
+			raise RuntimeError(f'anchor {relpath}::{qualname} not found')
+		skeleton, atoms = shape_of(node)
+		return {
+			'skeleton': hashlib.sha256(skeleton.encode('utf8')).hexdigest()[:16],
+			'atoms': [[kind, value if not isinstance(value, bytes) else 'hex:' + value.hex()] for kind, value in atoms]
+		}
 
 
 # ---------------------------------------------------------------------------------------------------------------------
@@ -335,11 +337,10 @@ class Check:
 		"""Builds the libraries, then compiles Props/<file> capturing Print Assumptions; one obligation per theorem."""
 		ok, out = coq_make()
 		self.checker_cmds.append('coq_makefile -f _CoqProject.build -o Makefile && make (coq/)')
-		if not ok:
-			where = _first_error(out)
-			self.obligation(f'make:{where}', False, out[-1500:])
-			return False
+		make_out = out if not ok else ''
 		ok, out, secs = coqc(f'Props/{props_file}', timeout)
+		if not ok and make_out and 'Cannot find a physical path' not in make_out:
+			out = out + '\n--- make output ---\n' + make_out[-3000:]
 		self.checker_cmds.append(f'coqc -Q . Symv Props/{props_file}')
 		text = (PROPS / props_file).read_text(encoding='utf8')
 		names = re.findall(r'^\s*(?:Theorem|Lemma|Example|Corollary)\s+([A-Za-z0-9_\']+)', text, re.M)
@@ -354,6 +355,8 @@ class Check:
 			self.extra['axioms_reported'] = axioms
 			return True
 		failing = _failing_theorem(text, out, props_file)
+		if failing == 'unknown' or 'Cannot find a physical path' in out or 'Compiled library' in out:
+			failing = 'dependency:' + _lemma_at_error(make_out or out)
 		for name in names:
 			if name == failing:
 				self.obligation(name, False, out[-1500:])
@@ -460,6 +463,18 @@ class Check:
 def _first_error(out):
 	match = re.search(r'File "([^"]+)", line (\d+)', out)
 	return f'{match.group(1)}:{match.group(2)}' if match else 'unknown'
+
+
+def _lemma_at_error(out):
+	match = re.search(r'File "([^"]+)", line (\d+)', out)
+	if not match:
+		return 'unknown'
+	path = COQ / match.group(1)
+	try:
+		text = path.read_text(encoding='utf8')
+	except OSError:
+		return f'{match.group(1)}:{match.group(2)}'
+	return f'{match.group(1)}:' + _failing_theorem(text, out, Path(match.group(1)).name)
 
 
 def _axioms_section(out):
